@@ -15,6 +15,7 @@ import (
 )
 
 type LockEv struct {
+	Unowned bool // the descriptor belongs to an *os.File (closed by its finalizer), not to withLock
 	G    *Term
 	How  *Term // BV64 flag word passed to flock
 	Busy *Term
@@ -448,7 +449,11 @@ func (w *World) mFlock(ex *Exec, c *callCtx) Value {
 	}
 	w.busyCount++
 	busy := ex.nondet(fmt.Sprintf("world.lock.busy!%d", w.busyCount), "bool").(BoolV).T
-	w.lockEvs = append(w.lockEvs, LockEv{G: And(c.guard, Not(ex.panicked)), How: how, Busy: busy, Kind: "flock"})
+	unowned := false
+	if fdv, ok := c.args[0].(IntV); ok && fdv.T.IsConst() && fdv.T.SVal() >= 500 {
+		unowned = true
+	}
+	w.lockEvs = append(w.lockEvs, LockEv{G: And(c.guard, Not(ex.panicked)), How: how, Busy: busy, Kind: "flock", Unowned: unowned})
 	w.lockHeld = Or(w.lockHeld, And(c.guard, Not(busy)))
 	ewould := Ref1(IfaceT{Typ: w.errnoType(), V: IntV{BVC(11, 64), false}})
 	return MergeV(busy, ewould, NilRef())
